@@ -157,7 +157,18 @@ func hashValue(h hasher, v reflect.Value, seen map[uintptr]bool, depth int) {
 		} else {
 			h.Write([]byte("func"))
 		}
-	case reflect.Chan, reflect.UnsafePointer:
+	case reflect.Chan:
+		if v.IsNil() {
+			h.Write([]byte("nilchan"))
+			return
+		}
+		items := ChanContents(v)
+		fmt.Fprintf(h, "chan%d[", len(items))
+		for _, it := range items {
+			hashValue(h, it, seen, depth+1)
+		}
+		h.Write([]byte("]"))
+	case reflect.UnsafePointer:
 		fmt.Fprintf(h, "p%x", v.Pointer())
 	}
 }
